@@ -28,6 +28,9 @@ JOBS = [
       fuc=["myth_wake_many_from_queue"], timeout=300,
       note="bounded: n <= 4 sleepers, at most 2 empty polls of the sleep queue (late sleepers)"),
 ]
+# the public API functions are one-line forwarders to the bodies under contract: checked mechanically (DESIGN §3.5b)
+from units.common_forward import forward_job
+JOBS = list(JOBS) + [forward_job("c07")]
 META = {
  "level": "proof",
  "level_text": "Every obligation generated from the real calc_bits / join_counter_init / dec / wait bodies is discharged for all inputs (N < 2^31) and all interference on the state word; myth_wake_many_from_queue is a bounded stand-in (n <= 4) and is not counted as proved.",
